@@ -77,9 +77,10 @@ def run(tier, replay=None):
                 raise tlc.TLCError("ESR.tla: the guard defect is not detected by the model (vacuous theorem)")
     s = scratch.make()
     scratch.activate(s)
-    plans = [("core_maths", 3, 3), ("core_maths", 4, 2)] if tier == "quick" else [("core_maths", 3, 5), ("core_maths", 4, 5), ("ext_maths", 3, 3), ("core_maths", 5, 2), ("ext_maths", 4, 2)]
+    plans = [("core_maths", 3, 3, 0), ("core_maths", 4, 2, 2)] if tier == "quick" else \
+        [("core_maths", 3, 5, 1), ("core_maths", 4, 5, 4), ("ext_maths", 3, 3, 2), ("core_maths", 5, 2, 2), ("ext_maths", 4, 2, 2)]
     cases, meta = [], []
-    for name, n, ntruth in plans:
+    for name, n, ntruth, nnonlin in plans:
         basis = bases.SHIPPED[name]
         L, _ = common.gen_library(r, s, name, n)
         if L is None:
@@ -110,12 +111,38 @@ def run(tier, replay=None):
                 continue
             seen_fun.add(key)
             truths.append((i, t, th, sig))
-        for ti, (i0, t0, th0, sig0) in enumerate(truths):
+        # planted NON-linear truths (data grid contains x = 1 and x = 2 exactly): the independent description length is that of the
+        # optimum next to the planted parameters (small noise), used only if the pipeline found no better optimum for that tree
+        xg = np.arange(0.5, 4.01, 0.25)
+        non = [i for i, t in enumerate(L.orig_trees) if model.get(tuple(t), {}).get("lin") == "non" and 1 <= libproj.nparam(" ".join(t)) <= 2]
+        rng.shuffle(non)
+        nl = []
+        for i in non:
+            if len(nl) >= nnonlin:
+                break
+            t = L.orig_trees[i]
+            k = libproj.nparam(" ".join(t))
+            th = [rng.choice([-1, 1]) * rng.uniform(1.5, 3.0) for _ in range(k)]
+            a = [np.full_like(xg, th[j] if j < k else 0.0) for j in range(4)]
+            f, good = p1.tree_values(t, x=xg, a=a)
+            if not good.all() or np.std(f) < 1e-3 or np.max(np.abs(f)) > 1e3:
+                continue
+            sig0 = 0.02 * float(np.std(f))
+            chk = wls.local_fit(t, xg, f, np.full(len(xg), sig0), th)
+            if not chk.get("ok") or chk["moved"] > 1e-6 or np.min(np.abs(chk["theta"]) * np.sqrt(chk["Idiag"] / 12.0)) < 3:
+                continue                    # not identifiable / near the snapping threshold: not a well-posed planted truth
+            key = tuple(np.round(f, 6))
+            if key in seen_fun:
+                continue
+            seen_fun.add(key)
+            nl.append((i, t, th, sig0))
+        truths = [(a_, b_, c_, d_, x) for a_, b_, c_, d_ in truths] + [(a_, b_, c_, d_, xg) for a_, b_, c_, d_ in nl]
+        for ti, (i0, t0, th0, sig0, x) in enumerate(truths):
             dd = os.path.join(s, "c04_%s_%d_%d" % (name, n, ti))
             os.makedirs(dd)
             nrng = np.random.RandomState(evidence.seed() * 100 + ti)
-            phi0, Phi = wls.design(t0, x, len(th0))
-            y = phi0 + (Phi @ np.array(th0) if len(th0) else 0.0) + sig0 * nrng.standard_normal(len(x))
+            a_ = [np.full_like(x, th0[j] if j < len(th0) else 0.0) for j in range(4)]
+            y = p1.tree_values(t0, x=x, a=a_)[0] + sig0 * nrng.standard_normal(len(x))
             sig = np.full(len(x), sig0)
             np.savetxt(os.path.join(dd, "d.txt"), np.transpose([x, y, sig]))
             res = run_pipeline(s, name, n, dd, seed=evidence.seed())
@@ -139,6 +166,15 @@ def run(tier, replay=None):
                 if math.isfinite(hi):
                     vals["hi%d" % i] = hi
                     indep[i] = (lo, hi, info)
+            if model.get(tuple(t0), {}).get("lin") == "non":
+                lf = wls.local_fit(t0, x, y, sig, th0)
+                cm = [l.split() for l in open(os.path.join(dd, "fitting", "output", "output_r", "codelen_matches_comp%d.dat" % n)).read().splitlines()]
+                pipe_nll = float(cm[i0][0])
+                if lf.get("ok") and not (pipe_nll < lf["nll"] - 1e-3):
+                    lo, hi = wls.dl_interval_at(t0, x, y, sig, lf["theta"], lf["Idiag"], libproj.code_value(model[tuple(t0)]["code"]))
+                    if math.isfinite(hi):
+                        vals["hi%d" % i0] = hi
+                        indep[i0] = (lo, hi, {"nll": lf["nll"], "theta": lf["theta"].tolist(), "nonlinear_truth": True})
             cl = classes(vals, lambda m: max(5e-3, 2e-6 * m))
             for i, (lo, hi, info) in indep.items():
                 cases.append({"id": len(cases), "kind": "tree", "top": cl["top"], "hi": cl["hi%d" % i]})
